@@ -113,6 +113,18 @@ def repetition_caps(prog, rep, RID):
                 compute_call = src
                 overrides = [st for st in _ast.walk(g.node) if isinstance(st, _ast.Assign) and isinstance(st.targets[0], _ast.Subscript) and isinstance(v, _ast.Name) and
                              norm(st.targets[0].value) == v.id and any("edges_to_ignore" in norm(t_) for t_, pol_ in _enclosing_tests(g.node, st) if pol_)]
+                if not overrides:
+                    # `for e in d: if e not in ignored: continue; d[e] = B` - the store is reached only for ignored edges
+                    for lp_ in _ast.walk(g.node):
+                        if isinstance(lp_, _ast.For):
+                            for i_, st in enumerate(lp_.body):
+                                if isinstance(st, _ast.Assign) and isinstance(st.targets[0], _ast.Subscript) and isinstance(v, _ast.Name) and norm(st.targets[0].value) == v.id:
+                                    guards_ = [x for x in lp_.body[:i_] if isinstance(x, _ast.If) and not x.orelse and x.body and isinstance(x.body[-1], _ast.Continue)]
+                                    if any(re.search(r"not in .*edges_to_ignore|^not \(?.* in .*edges_to_ignore", norm(x.test)) for x in guards_):
+                                        overrides.append(st)
+                if not overrides and any(isinstance(st, (_ast.Assign, _ast.AugAssign)) and isinstance(getattr(st, "targets", [getattr(st, "target", None)])[0], _ast.Subscript) and
+                                         isinstance(v, _ast.Name) and norm(getattr(st, "targets", [getattr(st, "target", None)])[0].value) == v.id for st in _ast.walk(g.node)):
+                    raise AnalysisError(f"{cname}.__init__: `{v.id}` is written after it was computed, under a condition this rule does not recognise")
                 override_value = overrides[0].value if overrides else None
             elif isinstance(src, _ast.DictComp) and len(src.generators) == 1 and isinstance(src.generators[0].iter, _ast.Call) and \
                     isinstance(src.generators[0].iter.func, _ast.Attribute) and src.generators[0].iter.func.attr == "items":
@@ -148,7 +160,7 @@ def repetition_caps(prog, rep, RID):
                 if "number_of_edges()" in ov and "sum(" in ov:
                     rep.ok(RID, key, "largest non-ignored flow value reachable from / reaching the edge; ignored edges get |E| + the sum of the other caps", g.loc(src))
                 elif "sum(" not in ov and any(isinstance(n_, _ast.Call) and isinstance(n_.func, _ast.Name) and n_.func.id in ("max", "min") and n_.args and
-                                              isinstance(n_.args[0], (_ast.GeneratorExp, _ast.ListComp)) for n_ in _ast.walk(_ast.parse(ov, mode="eval"))):
+                                              any(isinstance(x_, (_ast.GeneratorExp, _ast.ListComp)) for x_ in _ast.walk(n_.args[0])) for n_ in _ast.walk(_ast.parse(ov, mode="eval"))):
                     # an ignored edge shared by several cycles is crossed once per traversal of each of them: its traversals add up over the
                     # non-ignored edges around it, so the largest single cap (max over the collection) is below what an optimal walk may need
                     # (only when that aggregate enters additively: `|E| * max(..)` dominates the sum and is not this defect)
